@@ -1653,11 +1653,12 @@ def cancel_crash_run(workload: str, j_sym: Any, k_sym: Any, max_k: int = 14) -> 
 
 # ----------------------------------------------------------------------------------------------- statement-level handler race
 def handler_stmt_race_run(prop: str, workload: str, j_sym: Any, k_sym: Any, pick_sym: Any, monitors: tuple[str, ...] = ("C02", "C06"),
-                          compare: str = "reference", max_k: int = 90) -> bool:
+                          compare: str = "reference", max_k: int = 90, a_pick_sym: Any = 0) -> bool:
     """Two workers, one pre-emption, every pair of handlers the run offers: the handler of the j-th
     delivered message (worker A) is stopped just before its k-th SQL statement and another
     deliverable message (the pick-th of those visible at that instant) is handled completely by
-    worker B; then A continues with whatever it had read before.  Real SQLite file; a position
+    worker B; then A continues with whatever it had read before.  A itself is any of the (<= 3)
+    oldest deliverable messages at step j.  Real SQLite file; a position
     inside A's open write transaction is not enabled (B would wait for the commit) and slips to the
     next statement outside one.  j, k and the pick are symbolic."""
     with hx.Path("handler_stmt_race:%s:%s" % (prop, workload)) as P:
@@ -1708,10 +1709,11 @@ def handler_stmt_race_run(prop: str, workload: str, j_sym: Any, k_sym: Any, pick
                         break
                     if raced_at is None and hx.decide_eq(j_sym, step):
                         raced_at = step
-                        state["a"] = vis[0]["message_type"]
+                        arow = vis[hx.pick(a_pick_sym, min(len(vis), 3))] if len(vis) > 1 else vis[0]  # A need not take the oldest message
+                        state["a"] = arow["message_type"]
                         HOOKS.on_statement = hook
                         try:
-                            w.deliver(vis[0]["id"])
+                            w.deliver(arow["id"])
                         finally:
                             HOOKS.on_statement = None
                     else:
